@@ -129,7 +129,14 @@ fn run_batch(b: &Batch, only: Option<usize>) -> (Vec<Value>, u64, Vec<u64>) {
     let comp = op_component(b.op);
     let mut st = State::<Real>::new();
     let mut pops = Populations::<Real>::new();
-    pops.push(vec![xs.clone()].into_individuals());
+    // by batch: the solution alone on the stack / on top of another population holding a copy of it (which the
+    // operator must not touch) x not yet evaluated / already evaluated (a repair is due either way)
+    let beneath = b.id % 2 == 1;
+    let evaluated = (b.id / 2) % 2 == 1;
+    if beneath {
+        pops.push(vec![xs.clone()].into_individuals());
+    }
+    pops.push(if evaluated { vec![Individual::new(xs.clone(), problem.f_pure(&xs).try_into().unwrap())] } else { vec![xs.clone()].into_individuals() });
     st.insert(pops);
     st.insert(Random::new(b.seed));
     let mut viol = Vec::new();
@@ -138,6 +145,17 @@ fn run_batch(b: &Batch, only: Option<usize>) -> (Vec<Value>, u64, Vec<u64>) {
     if !matches!(r1, Ok(Ok(()))) {
         viol.push(json!({"sig": format!("{}:fails-on-finite-solution", b.op), "detail": {"operator": b.op, "domain": [a, hi], "result": format!("{r1:?}")}}));
         return (viol, xs.len() as u64, nontrivial);
+    }
+    {
+        let pops = st.populations();
+        let expect_height = if beneath { 2 } else { 1 };
+        if pops.len() != expect_height || pops.current().len() != 1 {
+            viol.push(json!({"sig": format!("{}:changes-the-population-stack", b.op), "detail": {"operator": b.op, "stack_height": pops.len(), "expected": expect_height}}));
+            return (viol, xs.len() as u64, nontrivial);
+        }
+        if beneath && pops.peek(1)[0].solution().iter().zip(&xs).any(|(p, q)| p.to_bits() != q.to_bits()) {
+            viol.push(json!({"sig": format!("{}:touches-a-population-beneath-the-current-one", b.op), "detail": {"operator": b.op, "domain": [a, hi], "seed": b.seed}}));
+        }
     }
     let ys: Vec<f64> = st.populations().current()[0].solution().clone();
     let _ = catch(|| comp.execute(&problem, &mut st).map_err(|e| format!("{e:#}")));
@@ -149,7 +167,7 @@ fn run_batch(b: &Batch, only: Option<usize>) -> (Vec<Value>, u64, Vec<u64>) {
         if cls != "inside" {
             nontrivial.push(hash_of(&(b.op, a.to_bits(), x.to_bits())));
         }
-        let case = || json!({"operator": b.op, "domain": [a, hi], "x": format!("{x:e}"), "result": format!("{y:e}"), "second_application": format!("{z:e}"), "seed": b.seed});
+        let case = || json!({"operator": b.op, "domain": [a, hi], "x": format!("{x:e}"), "result": format!("{y:e}"), "second_application": format!("{z:e}"), "seed": b.seed, "another_population_beneath": beneath, "individual_was_evaluated": evaluated});
         if !(y >= a - tau && y <= hi + tau) {
             viol.push(json!({"sig": format!("{}:result-outside-domain:{cls}", b.op), "detail": case()}));
         } else if x >= a && x <= hi && y.to_bits() != x.to_bits() {
@@ -398,6 +416,42 @@ fn initial(rep: &Reporter) {
                         }
                     }
                 }
+                // inside a scope that brings its own population stack (shadowing the caller's): the new population
+                // belongs to the innermost stack, the caller's is not touched
+                macro_rules! scoped {
+                    ($name:expr, $P:ty, $problem:expr, $comp:expr, $marker:expr) => {{
+                        rep.case();
+                        rep.nontrivial(hash_of(&($name, "scoped", n, dim, s)));
+                        let problem = $problem;
+                        let mut outer = State::<$P>::new();
+                        let mut op = Populations::<$P>::new();
+                        op.push(vec![$marker].into_individuals());
+                        outer.insert(op);
+                        outer.insert(Random::new(seed));
+                        let mut seen = None;
+                        let r = catch(|| {
+                            outer
+                                .with_inner_state(|inner| {
+                                    inner.insert(Populations::<$P>::new());
+                                    $comp.execute(&problem, inner)?;
+                                    let p = inner.populations();
+                                    seen = Some((p.len(), p.get_current().map(|c| c.len())));
+                                    Ok(())
+                                })
+                                .map(|_| ())
+                                .map_err(|e| e.to_string())
+                        });
+                        let outer_ok = {
+                            let p = outer.populations();
+                            p.len() == 1 && p.current().len() == 1 && *p.current()[0].solution() == $marker
+                        };
+                        if !matches!(r, Ok(Ok(()))) || seen != Some((1, Some(n as usize))) || !outer_ok {
+                            rep.violation(&format!("{}:inside-a-scope-with-its-own-population-stack:wrong-stack-or-count", $name), json!({"requested": n, "dimension": dim, "result": format!("{r:?}"), "innermost_stack (height, size of the new population)": format!("{seen:?}"), "callers_stack_untouched": outer_ok}));
+                        }
+                    }};
+                }
+                scoped!("RandomSpread", Real, Real::new(dim, -1.0, 1.0, RealFn::Sphere), initialization::RandomSpread::new::<Real, f64>(n), vec![9.0; dim]);
+                scoped!("RandomPermutation", Perm, Perm::new(dim), initialization::RandomPermutation::new::<Perm>(n), (0..dim).rev().collect::<Vec<usize>>());
                 // permutation
                 {
                     rep.case();
@@ -470,7 +524,7 @@ fn main() {
         return;
     }
     let rep = Reporter::from_args("C14");
-    rep.rule("initialisation: RandomSpread / RandomPermutation / RandomBitstring / Empty for sizes {0,1,2,7,50} x dimensions 0..6 x six domains x seeds on a stack that already holds a population: exactly n unevaluated individuals of the problem's dimension in ONE new population, existing population untouched, reals in [a,b), permutations of all positions, p=0/1 constant. Boundary repair: each of the four operators applied (as a component, in worker subprocesses with BEGIN/END markers; a batch silent for 20 s is re-run coordinate by coordinate with 120 s each) to every coordinate of a grid around six domains - the bounds, their floating-point neighbours, a-k*w and b+k*w for k in {.5,1,1.5,2,2.5,10,10.5,1e3,1e6}, +-{1e12,1e18,1e100,1e300,MAX}, and random finite values incl. random bit patterns; the resampling operator over several seeds: returns, result within [a-tau,b+tau] (tau = 4 ulp of the largest magnitude involved), a coordinate inside [a,b] is returned bit-identical, a second application changes nothing when the first result lies in [a,b]. distinct_nontrivial = distinct (operator, domain, coordinate) with the coordinate not strictly inside, plus distinct initialisation cells");
+    rep.rule("[repair batches alternate: solution alone / above an identical population that must stay untouched x unevaluated / evaluated individual; initialisation also inside a scope with its own population stack] initialisation: RandomSpread / RandomPermutation / RandomBitstring / Empty for sizes {0,1,2,7,50} x dimensions 0..6 x six domains x seeds on a stack that already holds a population: exactly n unevaluated individuals of the problem's dimension in ONE new population, existing population untouched, reals in [a,b), permutations of all positions, p=0/1 constant. Boundary repair: each of the four operators applied (as a component, in worker subprocesses with BEGIN/END markers; a batch silent for 20 s is re-run coordinate by coordinate with 120 s each) to every coordinate of a grid around six domains - the bounds, their floating-point neighbours, a-k*w and b+k*w for k in {.5,1,1.5,2,2.5,10,10.5,1e3,1e6}, +-{1e12,1e18,1e100,1e300,MAX}, and random finite values incl. random bit patterns; the resampling operator over several seeds: returns, result within [a-tau,b+tau] (tau = 4 ulp of the largest magnitude involved), a coordinate inside [a,b] is returned bit-identical, a second application changes nothing when the first result lies in [a,b]. distinct_nontrivial = distinct (operator, domain, coordinate) with the coordinate not strictly inside, plus distinct initialisation cells");
     rep.assume("the only wall-clock verdict is the two-stage hang rule; the slowest legitimate case takes well under 10 ms");
     initial(&rep);
     boundary(&rep);
